@@ -368,7 +368,14 @@ def call_builtin(ex, st, name, args, kwargs, node):
     if name == "smul":
         ex.lib_used.add("smul(q, w) = q*w by repeated addition (unfolding, monotone, non-negative: checked against q*w by "
                         "CPython on every run)")
-        return VInt(TH.smul(as_int(args[0]), as_int(args[1])))
+        q_, w_ = as_int(args[0]), as_int(args[1])
+        if z3.is_int_value(z3.simplify(q_)) and z3.simplify(q_).as_long() <= 0:
+            return VInt(z3.IntVal(0))
+        if not ex.binder_marks:
+            # one unfolding step down and one up for this ground application
+            st.pc.append(z3.Implies(q_ >= 1, TH.smul(q_, w_) == TH.smul(q_ - 1, w_) + w_))
+            st.pc.append(z3.Implies(q_ >= 0, TH.smul(q_ + 1, w_) == TH.smul(q_, w_) + w_))
+        return VInt(TH.smul(q_, w_))
     if name in ("tcount", "tsize", "lcount"):
         from . import tables
         ex.lib_used.add("T-occ2 / T-rangesum counting functions (see pyvc/tables.py)")
